@@ -9,6 +9,7 @@ import (
 	"reflect"
 	"sort"
 	"strconv"
+	"strings"
 	"time"
 
 	"github.com/gocql/gocql"
@@ -666,7 +667,18 @@ func buildNN(f *gform, v cqlref.Val) (reflect.Value, bool) {
 		if !v.I.IsInt64() {
 			return out, false
 		}
-		out.SetString(v.I.String())
+		str := v.I.String()
+		if !f.dec {
+			// "string, formatted as base 10 number": zero padded ids and fixed-width exports are base 10 numbers too
+			if pad := new(big.Int).Mod(new(big.Int).Abs(v.I), big.NewInt(7)).Int64(); pad == 3 || pad == 5 {
+				sign := ""
+				if strings.HasPrefix(str, "-") {
+					sign, str = "-", str[1:]
+				}
+				str = sign + strings.Repeat("0", int(pad)-2) + str
+			}
+		}
+		out.SetString(str)
 	case "bigint":
 		out.Set(reflect.ValueOf(*new(big.Int).Set(v.I)))
 	case "float":
